@@ -28,7 +28,7 @@ from .registry import (
 
 import os as _os
 
-FEAS_TIMEOUT_MS = int(_os.environ.get("PYVC_FEAS_MS", "6000"))
+FEAS_TIMEOUT_MS = int(_os.environ.get("PYVC_FEAS_MS", "2500"))
 FEAS_RLIMIT = int(_os.environ.get("PYVC_FEAS_RLIMIT", "2500000"))
 OBL_TIMEOUT_MS = int(_os.environ.get("PYVC_OBL_MS", "15000"))
 
@@ -39,6 +39,10 @@ class Reject(Exception):
 
 class PathEnd(Exception):
     pass
+
+
+class MergeAbort(Exception):
+    """a branch cannot be executed under a guard (it forks, exits or allocates): fall back to forking"""
 
 
 class Return_(Exception):
@@ -114,6 +118,12 @@ class RangeVal:
     def __init__(self, lo, hi):
         self.lo = lo
         self.hi = hi
+
+
+class EnumerateVal:
+    def __init__(self, seq, start):
+        self.seq = seq
+        self.start = start
 
 
 class LambdaVal:
@@ -390,11 +400,20 @@ class Run:
             self.solver_qf.add(b)
 
     def feasible(self, cond):
+        # paths are enumerated by re-execution: the same query recurs on every path that shares the
+        # prefix; fresh names are deterministic, so (choices so far, query text) identifies it
+        key = (tuple(self.taken), len(self.pc), cond.sexpr())
+        hit = self.v.feas_cache.get(key)
+        if hit is not None:
+            return hit
         if has_quantifier(cond):
-            return self.solver.check(cond) != z3.unsat
-        if self.solver_qf.check(cond) == z3.unsat:
-            return False
-        return self.solver.check(cond) != z3.unsat
+            r = self.solver.check(cond) != z3.unsat
+        elif self.solver_qf.check(cond) == z3.unsat:
+            r = False
+        else:
+            r = self.solver.check(cond) != z3.unsat
+        self.v.feas_cache[key] = r
+        return r
 
     def choose(self, cond, label="if"):
         """Fork on a boolean z3 condition; returns the python bool taken on this path."""
@@ -411,6 +430,8 @@ class Run:
             f = self.feasible(z3.Not(cond))
             if t and f and getattr(self, "no_fork", False):
                 raise Reject("fork inside a comprehension / quantified context")
+            if t and f and getattr(self, "merge_depth", 0) > 0:
+                raise MergeAbort()
             if t and f:
                 b = 1
                 self.alternatives.append(self.taken + [0])
@@ -426,6 +447,8 @@ class Run:
 
     def choose_n(self, n, label="n"):
         """Pure n-way fork (no condition)."""
+        if getattr(self, "merge_depth", 0) > 0:
+            raise MergeAbort()
         i = len(self.taken)
         if i < len(self.prefix):
             b = self.prefix[i]
@@ -1445,6 +1468,9 @@ class Run:
             if len(args) == 2:
                 return RangeVal(self.coerce(args[0], T.INT).z, self.coerce(args[1], T.INT).z)
             raise Reject("range with step")
+        if name == "enumerate":
+            start = kwargs.get("start", args[1] if len(args) > 1 else mk_int(0))
+            return EnumerateVal(args[0], self.coerce(start, T.INT).z)
         if name == "copy":
             (v,) = args
             if isinstance(v, SV) and isinstance(v.ty, T.Val):
@@ -1677,8 +1703,36 @@ class Run:
                 return NONE_SV
             if name == "remove":
                 return self.list_remove(c, args[0])
+            if name == "extend":
+                return self.list_extend(c, args[0])
             raise Reject("list.%s" % name)
         raise Reject("container method")
+
+    def list_extend(self, c, other):
+        """lst.extend(other): other's elements appended in order (other is a list of the same type)"""
+        t = c.ty
+        hp = self.heap
+        if isinstance(other, PyTuple):
+            for x in other.items:
+                self.container_method(c, "append", [x], {})
+            return NONE_SV
+        if not (isinstance(other, SV) and isinstance(other.ty, T.List) and other.ty == t):
+            raise Reject("list.extend with %r" % (other,))
+        self.touch(other)
+        es = T.sort(t.elem)
+        e1, n1 = hp.l_elems(t, c.z), hp.c_len(t, c.z)
+        e2, n2 = hp.l_elems(t, other.z), hp.c_len(t, other.z)
+        new = H.fresh("ext_elems", z3.ArraySort(H.I, es))
+        j = z3.Int(H.fresh_name("ext_j"))
+        e = z3.Const(H.fresh_name("ext_e"), es)
+        M = H.mem_fn(es)
+        self.assume(z3.ForAll([j], z3.And(z3.Implies(z3.And(0 <= j, j < n1), z3.Select(new, j) == z3.Select(e1, j)), z3.Implies(z3.And(0 <= j, j < n2), z3.Select(new, n1 + j) == z3.Select(e2, j))), patterns=[z3.Select(new, j)]))
+        self.assume(z3.ForAll([e], M(new, n1 + n2, e) == z3.Or(M(e1, n1, e), M(e2, n2, e)), patterns=[M(new, n1 + n2, e)]))
+        self.note_written([hp._upd(t, "elem", c.z, new)])
+        name, a = hp.carr(t, "len")
+        hp.set(name, z3.Store(a, c.z, n1 + n2))
+        self.note_written([name])
+        return NONE_SV
 
     def list_remove(self, c, x):
         """list.remove(x): first element equal to x (identity / structural ==) is removed."""
@@ -1948,10 +2002,96 @@ class Run:
 
     def st_If(self, s):
         t = self.ev(s.test)
-        if self.choose(self.truthy(t)):
+        cond = z3.simplify(self.truthy(t))
+        if not (z3.is_true(cond) or z3.is_false(cond)):
+            if _only_logging(s.body) and _only_logging(s.orelse):
+                return  # both arms are dropped log statements: nothing to execute, no fork
+            if self.feasible(cond) and self.feasible(z3.Not(cond)) and _mergeable(s.body) and _mergeable(s.orelse):
+                if self.try_merged_if(s, cond):
+                    return
+        if self.choose(cond):
             self.exec_block(s.body)
         else:
             self.exec_block(s.orelse)
+
+    def try_merged_if(self, s, cond):
+        """if-conversion: run both arms under their guard on copies of the state and join the results with
+        z3 `If` (no path fork). Only for arms that do not exit, fork or allocate."""
+        fr = self.frames[-1]
+        base_heap = self.heap
+        base_env = dict(fr.env)
+        base_pc = len(self.pc)
+        base_taken = len(self.taken)
+        base_alts = len(self.alternatives)
+        base_alloc = (self.alloc0, self.nalloc)
+        base_obl = set(self.v.obligations)
+        results = []
+        ok = True
+        for branch, guard in ((s.body, cond), (s.orelse, z3.Not(cond))):
+            self.heap = base_heap.copy()
+            fr.env.clear()
+            fr.env.update(base_env)
+            self.solver.push()
+            self.solver_qf.push()
+            self.merge_depth = getattr(self, "merge_depth", 0) + 1
+            try:
+                self.assume(guard)
+                self.exec_block(branch)
+                if (self.alloc0, self.nalloc) != base_alloc and not (self.alloc0.eq(base_alloc[0]) and self.nalloc == base_alloc[1]):
+                    raise MergeAbort()
+                results.append((self.heap, dict(fr.env), list(self.pc[base_pc + 1 :])))
+            except (MergeAbort, Return_, Raise_, Break_, Continue_, PathEnd):
+                ok = False
+            finally:
+                self.merge_depth -= 1
+                self.solver.pop()
+                self.solver_qf.pop()
+                del self.pc[base_pc:]
+            if not ok:
+                break
+        if ok:
+            (h1, e1, f1), (h2, e2, f2) = results
+            merged_env = {}
+            for name in set(e1) | set(e2):
+                a, b = e1.get(name), e2.get(name)
+                if a is b:
+                    merged_env[name] = a
+                elif isinstance(a, SV) and isinstance(b, SV) and a.ty == b.ty:
+                    merged_env[name] = a if a.z.eq(b.z) else SV(a.ty, z3.If(cond, a.z, b.z))
+                elif a is None or b is None:
+                    continue  # defined on one arm only: unusable afterwards (python would raise if read)
+                else:
+                    ok = False
+                    break
+        if not ok:
+            # restore everything and let the caller fork
+            self.heap = base_heap
+            fr.env.clear()
+            fr.env.update(base_env)
+            del self.taken[base_taken:]
+            del self.alternatives[base_alts:]
+            self.alloc0, self.nalloc = base_alloc
+            for k in list(self.v.obligations):
+                if k not in base_obl:
+                    del self.v.obligations[k]
+            return False
+        merged = base_heap.copy()
+        for name in set(h1.arr) | set(h2.arr):
+            a = h1.arr.get(name)
+            b = h2.arr.get(name)
+            if a is None:
+                a = h2.get(name) if name in base_heap.arr else z3.Const("%s0!%s" % (h1.tag, name), b.sort())
+            if b is None:
+                b = h1.get(name) if name in base_heap.arr else z3.Const("%s0!%s" % (h2.tag, name), a.sort())
+            merged.set(name, a if a.eq(b) else z3.If(cond, a, b))
+        self.heap = merged
+        fr.env.clear()
+        fr.env.update(merged_env)
+        for f_ in f1:
+            self.assume(z3.Implies(cond, f_))
+        for f_ in f2:
+            self.assume(z3.Implies(z3.Not(cond), f_))
+        return True
 
     def st_Assign(self, s):
         v = self.ev(s.value)
@@ -2072,6 +2212,9 @@ class Run:
         if isinstance(it, RangeVal):
             n = z3.If(it.hi > it.lo, it.hi - it.lo, 0)
             return n, (lambda i: SV(T.INT, it.lo + i)), None
+        if isinstance(it, EnumerateVal):
+            n, elem, cont = self.iter_desc(it.seq)
+            return n, (lambda i: PyTuple([SV(T.INT, it.start + i), elem(i)])), cont
         if isinstance(it, DictView):
             d = it.d
             t = d.ty
@@ -2237,6 +2380,8 @@ class Run:
             elif isinstance(x, PyTuple):
                 for y in x.items:
                     self.assume_typed(y)
+                if isinstance(it, EnumerateVal) and cont is not None and isinstance(cont.ty, T.List) and isinstance(x.items[1], SV):
+                    self.assume(self.heap.l_mem(cont.ty, cont.z, x.items[1].z))
             self.assign(s.target, x)
             iter_heap[0] = self.heap.copy()
             lemmas_at(i, "start")
@@ -2340,6 +2485,19 @@ def str_order_axioms():
         z3.ForAll([a, b, c], z3.Implies(z3.And(_STR_LT(a, b), _STR_LT(b, c)), _STR_LT(a, c)), patterns=[z3.MultiPattern(_STR_LT(a, b), _STR_LT(b, c))]),
         z3.ForAll([a, b], z3.Implies(_STR_LT(a, b), z3.Not(_STR_LT(b, a))), patterns=[_STR_LT(a, b)]),
     ]
+
+
+def _only_logging(stmts):
+    return all(is_logger_call(x) or isinstance(x, ast.Pass) for x in stmts)
+
+
+def _mergeable(stmts):
+    """syntactic pre-filter for if-conversion: straight-line code without exits, loops or nested defs"""
+    for st in stmts:
+        for n in ast.walk(st):
+            if isinstance(n, (ast.Return, ast.Raise, ast.Break, ast.Continue, ast.For, ast.While, ast.Try, ast.With, ast.Assert, ast.FunctionDef, ast.Lambda, ast.ListComp, ast.GeneratorExp, ast.Delete)):
+                return False
+    return True
 
 
 def _has_source(qname):
